@@ -4,6 +4,7 @@ usage: mutant_matrix.py [PROP ...]   writes /verif/seeded/RESULTS.json"""
 import json, os, subprocess, sys, time
 os.environ["VERIF_EVIDENCE_DIR"] = "/tmp/verif_mutant_evidence"  # never clobber the real tree's evidence
 SEEDED = "/verif/seeded"
+REPO = os.environ.get("VERIF_REPO", "/repo")  # a scratch clone may stand in, so /repo stays free for other work
 def sh(cmd, cwd=None, timeout=3600):
     p = subprocess.run(cmd, shell=True, cwd=cwd, capture_output=True, text=True, timeout=timeout)
     return p.returncode, p.stdout + p.stderr
@@ -11,21 +12,21 @@ def main():
     only = sys.argv[1:]
     resf = f"{SEEDED}/RESULTS.json"
     res = json.load(open(resf)) if os.path.exists(resf) else {}
-    rc, o = sh("git status --porcelain -- pyxform", cwd="/repo")
-    assert o.strip() == "", "/repo/pyxform not clean"
+    rc, o = sh("git status --porcelain -- pyxform", cwd=REPO)
+    assert o.strip() == "", f"{REPO}/pyxform not clean"
     for d in sorted(os.listdir(SEEDED)):
         if not os.path.isdir(f"{SEEDED}/{d}"): continue
         prop = d.split("_")[0]
         if only and prop not in only and d not in only: continue
         if not os.path.exists(f"/verif/vlib/monitors/{prop}.py"): continue
-        rc, o = sh(f"git apply {SEEDED}/{d}/patch.diff", cwd="/repo")
+        rc, o = sh(f"git apply {SEEDED}/{d}/patch.diff", cwd=REPO)
         if rc != 0:
             print(d, "patch does not apply", o[:200]); continue
         try:
             t = time.time()
             rc, o = sh(f"./check {prop} --tier {os.environ.get('TIER','quick')}", cwd="/verif")
         finally:
-            sh("git checkout -- pyxform", cwd="/repo")
+            sh("git checkout -- pyxform", cwd=REPO)
         keys = sorted({l.split("key=")[1].split(" ")[0] for l in o.splitlines() if l.strip().startswith("key=")})
         res[d] = {"check": prop, "rc": rc, "detected": rc == 1, "violation_keys": keys[:6], "wall_s": round(time.time() - t, 1)}
         print(d, "DETECTED" if rc == 1 else f"MISSED(rc={rc})", keys[:3])
